@@ -221,3 +221,44 @@ Proof.
   unfold canon_code, mfrag_nodes. now rewrite canon_list_mmerge, canon_each_mmerge.
 Qed.
 End WithTables.
+
+(* the combined model depends on the marker table only through the marker test on the characters of its input *)
+Lemma lines_In s : forall l c, In l (lines s) -> In c l -> In c s.
+Proof.
+  induction s as [|x t IH]; intros l c Hl Hc.
+  - cbn [lines] in Hl. destruct Hl as [<-|[]]. destruct Hc.
+  - cbn [lines] in Hl. destruct (is_nl x).
+    + destruct Hl as [<-|Hl]; [destruct Hc|]. right. now apply (IH l).
+    + destruct (lines t) as [|l0 ls] eqn:E.
+      * destruct Hl as [<-|[]]. destruct Hc as [<-|[]]. now left.
+      * destruct Hl as [<-|Hl].
+        -- destruct Hc as [<-|Hc]; [now left|]. right. apply (IH l0); [now left|assumption].
+        -- right. apply (IH l); [now right|assumption].
+Qed.
+
+Section Ext.
+Variables (m1 m2 : list N) (names : list str) (max_size md : nat).
+
+Lemma join_linesA_ext ls : (forall l c, In l ls -> In c l -> is_marker m1 c = is_marker m2 c) ->
+  join_linesA m1 names max_size md ls = join_linesA m2 names max_size md ls.
+Proof.
+  induction ls as [|l rest IH]; intros H; [reflexivity|].
+  assert (Hl : tok_lineA m1 names max_size md l = tok_lineA m2 names max_size md l).
+  { unfold tok_lineA. rewrite (scan_ext m1 m2 names max_size l); [reflexivity|]. intros c Hc. apply (H l); [now left|assumption]. }
+  assert (Hr : join_linesA m1 names max_size md rest = join_linesA m2 names max_size md rest).
+  { apply IH. intros l' c Hl' Hc. apply (H l'); [now right|assumption]. }
+  destruct rest as [|l2 rest]; [exact Hl|].
+  change (join_linesA m1 names max_size md (l :: l2 :: rest))
+    with (tok_lineA m1 names max_size md l ++ IT (ET 10%N) :: join_linesA m1 names max_size md (l2 :: rest)).
+  change (join_linesA m2 names max_size md (l :: l2 :: rest))
+    with (tok_lineA m2 names max_size md l ++ IT (ET 10%N) :: join_linesA m2 names max_size md (l2 :: rest)).
+  now rewrite Hl, Hr.
+Qed.
+
+Theorem mfrag_tokens_ext s : (forall c, In c s -> is_marker m1 c = is_marker m2 c) ->
+  mfrag_tokens m1 names max_size md s = mfrag_tokens m2 names max_size md s.
+Proof.
+  intros H. unfold mfrag_tokens, mfrag_nodes. rewrite (join_linesA_ext (lines s)); [reflexivity|].
+  intros l c Hl Hc. apply H. now apply (lines_In s l c).
+Qed.
+End Ext.
